@@ -296,8 +296,11 @@ def run_split(ctx, drv, treq, rng, count, cli_runs):
             else:
                 out = io.StringIO()
                 err = ''
-                with contextlib.redirect_stdout(out):
-                    commands.command_split(split_ns(path))
+                try:
+                    with contextlib.redirect_stdout(out):
+                        commands.command_split(split_ns(path))
+                except Exception as e:  # noqa
+                    err = 'command_split raised %s' % core.err_tag(e)
                 listed = out.getvalue().split()
             written = []
             k = 0
